@@ -426,6 +426,9 @@ func Probe(dir, id string, ck *snapshotpb.OperatorCheckpoint, candidates [][2]in
 // TempDir returns a fresh directory, preferably on tmpfs.
 func TempDir(prefix string) (string, error) {
 	base := "/dev/shm"
+	if b := os.Getenv("VERIF_SHM"); b != "" { // a scratch root the caller of the harness removes afterwards
+		base = b
+	}
 	if st, err := os.Stat(base); err != nil || !st.IsDir() {
 		base = ""
 	}
